@@ -54,6 +54,9 @@ META = {
         "colour x geometry x chain; Fl+PNG only where the row decoder is within its C03-judged domain: 1-bit only at width 8); "
         "dct: 3 opaque JPEG byte strings x {DeviceGray, DeviceRGB} x chain {DCT, A85+DCT, Fl+DCT}; names: documents whose pages reuse one "
         "image name dup_names times (plus a name that collides with the uniquifier's own suffix, bmp/jpg side by side, the same image painted twice, and dup_names inline images on one page); "
+        "calls: every sequence of 2 and 3 extract_text_to_fp calls into one output directory over 5 documents that all name an image Im0 "
+        "(bmp; other bmp; jpg + bmp; two pages with Im0; other jpg) -- after each call no file of an earlier call has changed and every "
+        "distinct image exported so far has a file decoding to it (states = calls made); "
         "inline-data: every byte string of length 1..inline_len over {E, I, SP, LF, CR, NUL, x, FF} that does not contain the end marker "
         "(first match of EI+white-space in data+LF+EI+LF is at len(data)+1), each run with PDFContentParser.BUFSIZ in bufsizes and 4096, "
         "and in a real document at every stream offset that puts the 4096-byte buffer boundary on each byte of 'ID <data>LF EI LF'; "
@@ -403,6 +406,95 @@ def judge_names_doc(pdf: bytes, images: List[Dict[str, Any]]):
     return viol, (tuple(sorted(files)),), ncmp
 
 
+# ---- successive extraction calls into one output directory (one ImageWriter per call)
+def call_pool():
+    """-> [(label, pdf, images)]: documents that all name an image /Im0"""
+    def bmp_im(name, salt, pattern="ramp"):
+        samples = make_samples("G8", 4, 2, pattern, salt=salt)
+        filt, parms, enc = encode_chain("Fl", samples, "G8", 4)
+        return image_xobject("G8", 4, 2, filt, parms, enc), {"name": name, "colour": "G8", "w": 4, "h": 2, "samples": samples, "ext": ".bmp"}
+
+    def jpg_im(name, ji):
+        filt, parms, enc = encode_chain("DCT", JPEGS[ji], "G8", 1)
+        return image_xobject("G8", 1, 1, filt, parms, enc), {"name": name, "colour": "G8", "w": 1, "h": 1, "samples": JPEGS[ji], "ext": ".jpg"}
+
+    pool = []
+    x, im = bmp_im("Im0", 31)
+    pool.append(("A:Im0.bmp", doc_with_pages([(do_ops(["Im0"]), {"Im0": x})]), [im]))
+    x, im = bmp_im("Im0", 32, "rows")
+    pool.append(("B:Im0.bmp", doc_with_pages([(do_ops(["Im0"]), {"Im0": x})]), [im]))
+    xj, imj = jpg_im("Im0", 0)
+    xb, imb = bmp_im("Im1", 33)
+    pool.append(("C:Im0.jpg+Im1.bmp", doc_with_pages([(do_ops(["Im0", "Im1"]), {"Im0": xj, "Im1": xb})]), [imj, imb]))
+    x1, im1 = bmp_im("Im0", 34)
+    x2, im2 = bmp_im("Im0", 35, "alternating")
+    pool.append(("D:Im0.bmp,Im0.bmp", doc_with_pages([(do_ops(["Im0"]), {"Im0": x1}), (do_ops(["Im0"]), {"Im0": x2})]), [im1, im2]))
+    xj, imj = jpg_im("Im0", 2)
+    pool.append(("E:Im0.jpg", doc_with_pages([(do_ops(["Im0"]), {"Im0": xj})]), [imj]))
+    return pool
+
+
+def _image_key(im) -> Tuple[str, str]:
+    if im["ext"] == ".jpg":
+        return ("jpg", repr(bytes(im["samples"])))
+    return ("bmp", repr(expected_pixels(im["colour"], im["w"], im["h"], im["samples"])))
+
+
+def _file_key(fn: str, blob: bytes) -> Tuple[str, str]:
+    if fn.endswith(".jpg"):
+        return ("jpg", repr(blob))
+    problems, bw, bh, rows = bmpref.read_bmp(blob)
+    return ("bmp", repr(rows) if not problems else "unreadable:" + repr(problems))
+
+
+def judge_calls(pdfs: Sequence[bytes], images: Sequence[Sequence[Dict[str, Any]]]):
+    """extract_text_to_fp(pdf_k, output_dir=D) for k = 1..n with one D.  After every call: no file written by an
+    earlier call has changed, and every distinct image exported so far has a file of its own decoding to it."""
+    viol: List[Tuple[str, Any, Any, str]] = []
+    out = tmp_root()
+    target = os.path.join(out, "img")
+    history: List[Any] = []
+    ncmp = 0
+    try:
+        prev: Dict[str, bytes] = {}
+        wanted: List[Tuple[str, str]] = []
+        for k, (pdf, ims) in enumerate(zip(pdfs, images)):
+            set_budget(len(pdf))
+            try:
+                extract_text_to_fp(io.BytesIO(pdf), io.StringIO(), output_dir=target)
+            except Exception as e:  # noqa
+                viol.append((f"C18/export-exception:{exc_sig(e)}", f"call {k + 1} exports {len(ims)} image(s)", f"{type(e).__name__}: {e}", "exporting raised"))
+                break
+            finally:
+                _BUDGET[0] = 1 << 60
+            files: Dict[str, bytes] = {}
+            for fn in sorted(os.listdir(target)) if os.path.isdir(target) else []:
+                with open(os.path.join(target, fn), "rb") as f:
+                    files[fn] = f.read()
+            history.append(tuple(sorted(files)))
+            ncmp += 1
+            changed = sorted(fn for fn, blob in prev.items() if files.get(fn) != blob)
+            if changed:
+                viol.append(("C18/export-overwrites-file-of-an-earlier-call", {"call": k + 1, "files kept unchanged": sorted(prev)}, {"call": k + 1, "changed or removed": changed, "files": sorted(files)}, f"call {k + 1} into the same output_dir overwrote {changed}: distinct images did not get distinct file names"))
+            for im in ims:
+                key = _image_key(im)
+                if key not in wanted:
+                    wanted.append(key)
+            have = [_file_key(fn, blob) for fn, blob in files.items()]
+            ncmp += len(wanted)
+            missing = [i for i, key in enumerate(wanted) if key not in have]
+            if missing and not changed:
+                viol.append(("C18/export-image-without-file-after-successive-calls", f"{len(wanted)} distinct images, each with a file", {"call": k + 1, "files": sorted(files), "images without a file (export order)": missing}, "an exported image has no file decoding to it"))
+            if len(files) < len(wanted) and not changed and not missing:
+                viol.append(("C18/export-name-collision", len(wanted), sorted(files), "fewer files than distinct images"))
+            prev = files
+            if viol:
+                break
+        return viol, tuple(history), ncmp
+    finally:
+        shutil.rmtree(out, ignore_errors=True)
+
+
 # ---- termination is judged by a counted budget of buffer refills, not by a timer (cf. CountingParser in C14):
 # every iteration of the inline-data scanner and of the tokenizer loop calls fillbuf() once.
 class Livelock(Exception):
@@ -561,6 +653,8 @@ def shards(tier):
     out.append(("dct",))
     for n in b["dup_names"]:
         out.append(("names", n))
+    for first in range(5):
+        out.append(("calls", first))
     for i in range(len(INLINE_SIGMA)):
         for j in range(len(INLINE_SIGMA)):
             out.append(("inline-data", i, j))
@@ -679,6 +773,21 @@ def run_shard(shard, tier, st):
             _record(st, viols, {"family": fam, "pdf": pdf, "images": images})
         if n == 3:
             st.sample({"family": fam, "pages": n, "names": [im["name"] for im in images]})
+    elif fam == "calls":
+        pool = call_pool()
+        first = shard[1]
+        hists = [(first, j) for j in range(len(pool))] + [(first, j, k) for j in range(len(pool)) for k in range(len(pool))]
+        for hist in hists:
+            pdfs = [pool[i][1] for i in hist]
+            images = [pool[i][2] for i in hist]
+            viols, outcome, ncmp = judge_calls(pdfs, images)
+            st.states += len(hist)
+            st.transitions += ncmp
+            st.traces += 1
+            st.case(None, nontrivial=True, outcome=outcome, n=sum(len(x) for x in images))
+            _record(st, viols, {"family": fam, "pdfs": pdfs, "images": images, "history": [pool[i][0] for i in hist]})
+        if first == 2:
+            st.sample({"family": fam, "history": [pool[i][0] for i in hist], "files_after_each_call": outcome})
     elif fam == "inline-data":
         rig = InlineRig()
         ref = rig.run(PRE + b"q 30 0 0 30 50 50 cm\nQ\n" + POST)[1]
@@ -836,6 +945,8 @@ def replay(case):
         viols, _, _ = judge_xobject_doc(case["pdf"], case["images"])
     elif fam == "names":
         viols, _, _ = judge_names_doc(case["pdf"], case["images"])
+    elif fam == "calls":
+        viols, _, _ = judge_calls(case["pdfs"], case["images"])
     elif fam == "inline":
         rig = InlineRig()
         body = PRE + b"q 30 0 0 30 50 50 cm\nQ\n" + (b"" if case.get("nopost") else POST)
